@@ -10,7 +10,10 @@ package c19
 //             configuration after the first load and after the reload, and the hash of dump + directory contents after the
 //             first and second dump.  Names have lengths around the file-name truncation bound and characters that
 //             matter in file names; some names collide after truncation / separator replacement.
-//   dynnul  : the same with a NUL byte in a name (known finding: the dump fails).
+//             Before the reload the dump is repeated (n = 1, 2 or 3 dumps into the same directories: dump ; dump = dump):
+//             every repeated dump must leave the documents of the first one.
+//   dynnul  : the same with a NUL byte in a name (repaired defect: the dump used to fail); NUL bytes are also part of
+//             the ordinary name generator.
 //   dynpair : v2.ClusterManagerConfig / v2.RouterConfiguration (Un)MarshalJSON directly, items in a known order:
 //             the exact file names the dump leaves in the directory and the items read back.
 
@@ -32,9 +35,9 @@ import (
 
 var boundaryLens = []int{1, 2, 100, 118, 119, 120, 121, 122, 123, 124, 125, 126, 127, 128, 129, 130, 131, 133, 200, 255}
 
-var nameSpecials = []string{"/", "_", ".", " ", "%", "\\", ":", "|", "*", "?", "~", "#", "é", "中", "\U0001F600", "//", "/_", "..", "-"}
+var nameSpecials = []string{"/", "_", ".", " ", "%", "\\", ":", "|", "*", "?", "~", "#", "é", "中", "\U0001F600", "//", "/_", "..", "-", "\x00", "\x00", "/\x00", "\x00_"}
 
-var wholeNames = []string{".", "..", "a.json", "x.json.tmp", "a_1", "a/1", "a_1.json", ".hidden", "con", "a b", "json", ".json", "_", "/", "a/", "/a"}
+var wholeNames = []string{".", "..", "a.json", "x.json.tmp", "a_1", "a/1", "a_1.json", ".hidden", "con", "a b", "json", ".json", "_", "/", "a/", "/a", "\x00", "\x00\x00", "/\x00/", "a\x00", "\x00.json"}
 
 type dynItem struct {
 	name string
@@ -102,7 +105,10 @@ func dynNames(c *hx.Ctx, r *hx.Rng, n int) []string {
 	seen := map[string]bool{}
 	var out []string
 	add := func(s string) {
-		if s != "" && !seen[s] && len(out) < n && !strings.ContainsRune(s, 0) {
+		if s != "" && !seen[s] && len(out) < n {
+			if strings.ContainsRune(s, 0) {
+				c.Count("dyn.name.with-NUL")
+			}
 			seen[s] = true
 			out = append(out, s)
 		}
@@ -144,12 +150,71 @@ func dynNames(c *hx.Ctx, r *hx.Rng, n int) []string {
 			}
 			add(short + "/v")
 			add(short + "_v")
-			if r.Bool() {
+			switch r.Intn(3) {
+			case 0:
 				add(short + "_v_1")
+			case 1:
+				add(short + "\x00v")
 			}
 		}
 	}
 	return out
+}
+
+// collisionFamily: 2..4 distinct names that get the same file name before uniqueFileName (they differ only in bytes
+// that are replaced by '_', or behind byte 128), sometimes with the name a uniqueness suffix would produce, in a random order.
+func collisionFamily(c *hx.Ctx, r *hx.Rng) []string {
+	var out []string
+	switch r.Intn(4) {
+	case 0:
+		c.Count("dyn.family2=svc/v1-svc_v1")
+		out = []string{"svc/v1", "svc_v1"}
+		if r.Bool() {
+			out = append(out, "svc\x00v1")
+		}
+		if r.Bool() {
+			out = append(out, "svc_v1_1")
+		}
+	case 1:
+		c.Count("dyn.family2=common-128-prefix")
+		base := strings.Repeat(string(rune('a'+r.Intn(3))), 126) + r.PickS([]string{"/x", "__", "\x00/", "ab"})
+		out = []string{base + "A", base + "B"}
+		if r.Bool() {
+			out = append(out, base)
+		}
+		if r.Bool() {
+			out = append(out, base+"/C")
+		}
+	case 2:
+		c.Count("dyn.family2=only-replaced-bytes")
+		out = []string{"/", "_", "\x00"}[:2+r.Intn(2)]
+		if r.Bool() {
+			out = append(out, "__1")
+		}
+	default:
+		c.Count("dyn.family2=random-stem")
+		stem := mkName(c, r, 1+r.Intn(30))
+		out = []string{stem + "/v", stem + "_v"}
+		if r.Bool() {
+			out = append(out, stem+"\x00v")
+		}
+		if r.Bool() {
+			out = append(out, stem+"_v_1")
+		}
+	}
+	seen := map[string]bool{}
+	var uniq []string
+	for _, s := range out {
+		if !seen[s] {
+			seen[s] = true
+			uniq = append(uniq, s)
+		}
+	}
+	for j := len(uniq) - 1; j > 0; j-- {
+		k := r.Intn(j + 1)
+		uniq[j], uniq[k] = uniq[k], uniq[j]
+	}
+	return uniq
 }
 
 func lenClass(n int) string {
@@ -248,7 +313,7 @@ func liveItems() (cl, vh []dynItem) {
 	return
 }
 
-func dynCase(c *hx.Ctx, tmp string, kind string, mode string, cl, vh []dynItem) {
+func dynCase(c *hx.Ctx, tmp string, kind string, mode string, cl, vh []dynItem, nd int) {
 	r := c.Rng
 	root := filepath.Join(tmp, "dyn")
 	os.RemoveAll(root)
@@ -299,8 +364,9 @@ func dynCase(c *hx.Ctx, tmp string, kind string, mode string, cl, vh []dynItem) 
 	path := filepath.Join(root, "mosn.json")
 	ioutil.WriteFile(path, []byte(canonV(cfg)), 0644)
 
-	caseToks := fmt.Sprintf("%s %s cl=%s vh=%s", kind, mode, itemsTok(cl, true), itemsTok(vh, true))
+	caseToks := fmt.Sprintf("%s %s cl=%s vh=%s n=%d", kind, mode, itemsTok(cl, true), itemsTok(vh, true), nd)
 	c.Count("dyn.mode=" + mode)
+	c.Count(fmt.Sprintf("dyn.dumps-before-reload=%d", nd))
 	d1, why := loadDump(path)
 	if why != "" {
 		c.Count(kind + ".result=" + why)
@@ -309,6 +375,19 @@ func dynCase(c *hx.Ctx, tmp string, kind string, mode string, cl, vh []dynItem) 
 	}
 	cl0, vh0 := liveItems()
 	h1 := dumpHash(d1) + hashS(dirDigest(cdir)+"\x00"+dirDigest(rdir))
+	// dump ; dump (; dump): the running process persists its configuration again into the same directories
+	hs := h1
+	for k := 1; k < nd; k++ {
+		dk, err := configmanager.InheritMosnconfig()
+		if err != nil {
+			c.Count(kind + ".result=redump-error")
+			c.Emit("C19", caseToks, "fail:dump-again")
+			return
+		}
+		d1 = dk
+		hs += "," + dumpHash(dk) + hashS(dirDigest(cdir)+"\x00"+dirDigest(rdir))
+	}
+	h1 = hs
 	p2 := filepath.Join(root, "dump1.json")
 	ioutil.WriteFile(p2, d1, 0644)
 	d2, why := loadDump(p2)
@@ -353,11 +432,16 @@ func dyns(c *hx.Ctx, tmp string, n int) {
 			c.Count("dyn.vhost-duplicate-name")
 		}
 		vh := mkItems(vnames, 1)
-		dynCase(c, tmp, "dyn", mode, cl, vh)
+		if i%4 == 3 { // names that collide after sanitising: every later dump must keep the disambiguated files
+			c.Count("dyn.collision-family-case")
+			cl = mkItems(collisionFamily(c, r), 1)
+			vh = mkItems(collisionFamily(c, r), 1)
+		}
+		dynCase(c, tmp, "dyn", mode, cl, vh, 1+(i/len(modes))%3)
 	}
 	// a NUL byte in a name (dump fails on the unchanged tree: known finding)
 	for i := 0; i < 2; i++ {
-		dynCase(c, tmp, "dynnul", []string{"cl", "rt"}[i], []dynItem{{"a\x00b", 1}, {"c", 2}}, []dynItem{{"v\x00", 1}})
+		dynCase(c, tmp, "dynnul", []string{"cl", "rt"}[i], []dynItem{{"a\x00b", 1}, {"c", 2}, {"a_b", 3}}, []dynItem{{"v\x00", 1}, {"\x00", 2}, {"_", 3}}, 1+i)
 	}
 }
 
@@ -401,6 +485,10 @@ func dynPairs(c *hx.Ctx, tmp string, n int) {
 	for i := 0; i < n; i++ {
 		what := []string{"cl", "vh"}[i%2]
 		names := dynNames(c, r, 1+r.Intn(5))
+		if i%5 == 4 {
+			c.Count("dynpair.collision-family-case")
+			names = collisionFamily(c, r)
+		}
 		if what == "vh" {
 			if r.Chance(30) {
 				names = append(names, "")
@@ -430,12 +518,14 @@ func dynPairs(c *hx.Ctx, tmp string, n int) {
 			initHex = append(initHex, hx.Hex([]byte(f)))
 		}
 		sort.Strings(initHex)
-		caseToks := fmt.Sprintf("dynpair %s init=%s items=%s", what, strings.Join(initHex, ","), itemsTok(items, false))
+		nd := 1 + (i/2)%3
+		c.Count(fmt.Sprintf("dynpair.dumps=%d", nd))
+		caseToks := fmt.Sprintf("dynpair %s init=%s items=%s n=%d", what, strings.Join(initHex, ","), itemsTok(items, false), nd)
 		var res string
 		if what == "cl" {
-			res = pairCluster(dir, items)
+			res = pairCluster(dir, items, nd)
 		} else {
-			res = pairVhost(dir, items)
+			res = pairVhost(dir, items, nd)
 		}
 		c.Count("dynpair." + what + "=" + strings.SplitN(res, ":", 2)[0])
 		c.Emit("C19", caseToks, res)
@@ -443,7 +533,7 @@ func dynPairs(c *hx.Ctx, tmp string, n int) {
 }
 
 // pairCluster: ClusterManagerConfig with the items in this order -> MarshalJSON (writes the directory) -> UnmarshalJSON.
-func pairCluster(dir string, items []dynItem) string {
+func pairCluster(dir string, items []dynItem, nd int) string {
 	cm := v2.ClusterManagerConfig{}
 	cm.ClusterConfigPath = dir
 	for _, it := range items {
@@ -455,6 +545,9 @@ func pairCluster(dir string, items []dynItem) string {
 		cm.Clusters = append(cm.Clusters, cl)
 	}
 	b, err := json.Marshal(cm)
+	for k := 1; k < nd && err == nil; k++ { // the same value dumped again into the same directory
+		b, err = json.Marshal(cm)
+	}
 	if err != nil {
 		return "fail:dump"
 	}
@@ -472,7 +565,7 @@ func pairCluster(dir string, items []dynItem) string {
 	return "ok:" + files + ":" + itemsTok(back, true)
 }
 
-func pairVhost(dir string, items []dynItem) string {
+func pairVhost(dir string, items []dynItem, nd int) string {
 	rc := v2.RouterConfiguration{}
 	rc.RouterConfigName = "r"
 	rc.RouterConfigPath = dir
@@ -485,6 +578,9 @@ func pairVhost(dir string, items []dynItem) string {
 		rc.VirtualHosts = append(rc.VirtualHosts, vh)
 	}
 	b, err := json.Marshal(rc)
+	for k := 1; k < nd && err == nil; k++ {
+		b, err = json.Marshal(rc)
+	}
 	if err != nil {
 		return "fail:dump"
 	}
